@@ -96,10 +96,15 @@ func main() {
 		fmt.Fprintln(os.Stderr, "simnode:", err)
 		os.Exit(3)
 	}
+	cliFSRoot = *outPath + ".fs"
 	res := &scn.Result{Prop: s.Prop, RunSeed: s.RunSeed, Faults: map[string]int64{}, Probes: map[string]int64{}, KnobState: knobState}
 	switch {
 	case *iso >= 0:
-		runIso(&s, *iso, res)
+		if s.Kind == "C" {
+			runIsoCLI(&s, *iso, res)
+		} else {
+			runIso(&s, *iso, res)
+		}
 		out, _ := json.Marshal(res)
 		os.WriteFile(*outPath, out, 0644)
 		return
